@@ -11,6 +11,8 @@ import Spg.Generated.Classes
 import Spg.Generated.AgileWords
 import Spg.Generated.AgileSyllables
 import Spg.Model.WordGen
+import Spg.Generated.Facts
+import SpgProofs.Lemmas.C16Lists
 namespace Spg.C16
 open Spg Spg.Generated
 
@@ -73,74 +75,41 @@ theorem budget_ok :
     (maxFailRateNum * 1000000000 - maxFailRateDen).natAbs * 1000000000000000 ≤ maxFailRateDen := by
   decide
 
-/-! ### The shipped lists -/
+/-! ### The shipped lists (proved in `SpgProofs/Lemmas/C16Lists.lean` by kernel evaluation over the regenerated data) -/
 
-/-- Strictly increasing (hence duplicate-free). -/
-def sortedB : List Nat → Bool
-  | a :: b :: rest => a < b && sortedB (b :: rest)
-  | _ => true
-
-theorem sortedB_pairwise : ∀ (l : List Nat), sortedB l = true → l.Pairwise (· < ·)
-  | [], _ => List.Pairwise.nil
-  | [_], _ => by simp
-  | a :: b :: rest, h => by
-    simp only [sortedB, Bool.and_eq_true, decide_eq_true_eq] at h
-    have ih := sortedB_pairwise (b :: rest) h.2
-    refine List.pairwise_cons.mpr ⟨?_, ih⟩
-    intro c hc
-    rcases List.mem_cons.mp hc with rfl | hc
-    · exact h.1
-    · exact Nat.lt_trans h.1 ((List.pairwise_cons.mp ih).1 c hc)
-
-/-- Digits of `v` in base 27 from the least significant: zeros (padding) may only come before
-the first non-zero digit is seen; after `k` digits nothing may remain. -/
-def wfAux : Nat → Nat → Bool → Bool
-  | 0, v, seen => v == 0 && seen
-  | k + 1, v, seen =>
-    if v % 27 == 0 then !seen && wfAux k (v / 27) false else wfAux k (v / 27) true
-
-/-- An encoded entry is a word of 1 to 8 letters a-z: its eight base-27 digits are a non-empty
-run of digits 1..26 (a = 1 … z = 26), left-aligned, followed by zeros only. -/
-def wellFormed (v : Nat) : Bool := wfAux 8 v false
-
-/-- For instance "aback" (1,2,1,3,11 then three zeros) is well formed; a gap, an empty entry and
-an over-long entry are not. -/
-example : wellFormed ((((((1 * 27 + 2) * 27 + 1) * 27 + 3) * 27 + 11) * 27 + 0) * 27 * 27) = true ∧
-    wellFormed ((1 * 27 + 0) * 27 + 1) = false ∧ wellFormed 0 = false ∧ wellFormed (27 ^ 8) = false := by
-  decide
-
-set_option maxRecDepth 100000 in
 /-- The shipped word list is strictly sorted — so it has no duplicates — in source order. -/
-theorem agileWords_sorted : sortedB agileWordsChunks.flatten = true := by decide +kernel
+theorem agileWords_sorted : C16Lists.sortedB agileWordsChunks.flatten = true := C16Lists.agileWords_sorted
 
-set_option maxRecDepth 100000 in
-theorem agileSyllables_sorted : sortedB agileSyllablesChunks.flatten = true := by decide +kernel
+theorem agileSyllables_sorted : C16Lists.sortedB agileSyllablesChunks.flatten = true := C16Lists.agileSyllables_sorted
 
-theorem agileWords_nodup : agileWordsChunks.flatten.Nodup :=
-  (sortedB_pairwise _ agileWords_sorted).imp (fun h => Nat.ne_of_lt h)
+theorem agileWords_nodup : agileWordsChunks.flatten.Nodup := C16Lists.agileWords_nodup
 
-theorem agileSyllables_nodup : agileSyllablesChunks.flatten.Nodup :=
-  (sortedB_pairwise _ agileSyllables_sorted).imp (fun h => Nat.ne_of_lt h)
+theorem agileSyllables_nodup : agileSyllablesChunks.flatten.Nodup := C16Lists.agileSyllables_nodup
 
-set_option maxRecDepth 100000 in
 /-- Every entry of both lists is a non-empty lower-case word a-z (and was encodable at all). -/
 theorem lists_lower :
-    agileWordsChunks.flatten.all wellFormed = true ∧ agileWordsBad = [] ∧
-    agileSyllablesChunks.flatten.all wellFormed = true ∧ agileSyllablesBad = [] := by
-  decide +kernel
+    agileWordsChunks.flatten.all C16Lists.wellFormed = true ∧ agileWordsBad = [] ∧
+    agileSyllablesChunks.flatten.all C16Lists.wellFormed = true ∧ agileSyllablesBad = [] := C16Lists.lists_lower
 
-set_option maxRecDepth 100000 in
 /-- **The embedded lists are identical to their source data files**, entry for entry, in order. -/
 theorem lists_match_testdata :
     agileWordsChunks = agWordlistTxtChunks ∧ agileWordsCount = agWordlistTxtCount ∧ agWordlistTxtBad = [] ∧
-    agileSyllablesChunks = agSyllablesTxtChunks ∧ agileSyllablesCount = agSyllablesTxtCount ∧ agSyllablesTxtBad = [] := by
-  decide +kernel
+    agileSyllablesChunks = agSyllablesTxtChunks ∧ agileSyllablesCount = agSyllablesTxtCount ∧ agSyllablesTxtBad = [] :=
+  C16Lists.lists_match_testdata
 
-set_option maxRecDepth 100000 in
 /-- Nothing was lost in the encoding: the number of encoded entries is the number of entries. -/
 theorem lists_counts :
-    agileWordsChunks.flatten.length = agileWordsCount ∧ agileSyllablesChunks.flatten.length = agileSyllablesCount := by
-  decide +kernel
+    agileWordsChunks.flatten.length = agileWordsCount ∧ agileSyllablesChunks.flatten.length = agileSyllablesCount :=
+  C16Lists.lists_counts
+
+/-- The built-in data lives in exactly these package-level variables (two lists, two budget
+variables, seven presets, two class tables). A further package-level variable — say a shared,
+mutable copy of a class — changes this regenerated list. -/
+theorem builtin_state :
+    Facts.packageVars.map (·.1) =
+      ["AgileSyllables", "AgileWords", "MaxFailRate", "MaxTrials", "SFDigits1", "SFDigits2",
+       "SFDigitsNoAmbiguous1", "SFDigitsNoAmbiguous2", "SFDigitsSymbols", "SFNone", "SFSymbols",
+       "charTypeByFlag", "charTypeNamesByFlag"] := by decide
 
 /-! ### Separator presets: what each documented recipe yields -/
 
